@@ -1,7 +1,107 @@
-(* C06 — placeholder until proofs/EventLog_Lemmas.v lands *)
-From Coq Require Import List.
-From SosModel Require Import model.EventLog.
-Theorem C06_reopen_idem (hash tm dat : Type) (l : @elog hash tm dat) :
-  log_reopen hash tm dat (log_reopen hash tm dat l) = log_reopen hash tm dat l.
+(* C06 — persisted event logs are faithful: storage, tree and order agree.
+   Model: model/EventLog.v (record level, both backends; the DB's shared table explicit).
+   Inv l  :=  in-memory tree = commits of the stored records, in order. *)
+From Coq Require Import List NArith.
+From SosModel Require Import model.Merkle model.EventLog proofs.Merkle_Lemmas proofs.EventLog_Lemmas.
+Import ListNotations.
+
+Section C06.
+Variable hash : Type.
+Variable hash_eqb : hash -> hash -> bool.
+Hypothesis hash_eqb_spec : forall a b, hash_eqb a b = true <-> a = b.
+Variable H2 : hash -> hash -> hash.
+Variables tm dat : Type.
+Notation elog := (@elog hash tm dat).
+Notation Inv := (Inv hash tm dat).
+Notation log_apply := (log_apply hash tm dat).
+Notation log_reopen := (log_reopen hash tm dat).
+Notation log_rewind := (log_rewind hash hash_eqb tm dat).
+
+(* re-opening the log from storage yields exactly the in-memory tree, in every state
+   reachable by the operations below (each preserves Inv) *)
+Theorem C06_reload_tree l : Inv l -> log_reopen l = l.
+Proof. exact (reopen_same hash tm dat l). Qed.
+Theorem C06_inv_empty : Inv (empty_log hash tm dat).
+Proof. exact (inv_empty hash tm dat). Qed.
+Theorem C06_inv_apply l rs : Inv l -> Inv (log_apply l rs).
+Proof. exact (apply_inv hash tm dat l rs). Qed.
+Theorem C06_inv_reopen l : Inv (log_reopen l).
+Proof. exact (reopen_inv hash tm dat l). Qed.
+Theorem C06_inv_patch_checked l p rs l' : Inv l ->
+  log_patch_checked hash hash_eqb H2 tm dat l p rs = PcSuccess l' -> Inv l'.
+Proof. exact (patch_checked_inv hash hash_eqb H2 tm dat l p rs l'). Qed.
+Theorem C06_replace_all l ckpt rs l' :
+  log_replace_all hash hash_eqb H2 tm dat l ckpt rs = RaOk l' -> l_recs l' = rs /\ Inv l' /\ rs <> [].
+Proof. exact (replace_all_ok hash hash_eqb H2 tm dat l ckpt rs l'). Qed.
+
+(* records come back in append order with their original timestamps: appending extends the
+   stored list by exactly the given records *)
+Theorem C06_append_order l rs : l_recs (log_apply l rs) = l_recs l ++ rs.
+Proof. exact (apply_recs hash tm dat l rs). Qed.
+
+(* rewind keeps exactly the prefix ending at the LAST occurrence of the target commit and
+   returns the removed suffix in append order; the invariant is preserved *)
+Theorem C06_rewind l c l' removed : Inv l -> log_rewind l c = RwOk l' removed ->
+  l_recs l = l_recs l' ++ removed /\ Inv l' /\
+  (exists r, last (l_recs l') r = r /\ In r (l_recs l') /\ er_commit r = c) /\
+  Forall (fun x => er_commit x <> c) removed.
+Proof. exact (rewind_ok hash hash_eqb hash_eqb_spec H2 tm dat l c l' removed). Qed.
+
+(* every stored commit is the hash of its bytes, provided the records handed in are
+   (the log does not re-hash: see known finding C06-forged-commit-stored) *)
+Theorem C06_commit_is_hash (Hd : dat -> hash) l rs :
+  HashOk hash tm dat Hd l -> Forall (fun r => er_commit r = Hd (er_data r)) rs ->
+  HashOk hash tm dat Hd (log_apply l rs).
+Proof. exact (apply_hashok hash tm dat Hd l rs). Qed.
+Theorem C06_commit_is_hash_rewind (Hd : dat -> hash) l c l' removed :
+  Inv l -> HashOk hash tm dat Hd l -> log_rewind l c = RwOk l' removed -> HashOk hash tm dat Hd l'.
+Proof. exact (rewind_hashok hash hash_eqb hash_eqb_spec H2 tm dat Hd l c l' removed). Qed.
+
+(* the database backend: all logs of a kind share one table; an operation on one log never
+   changes what another log reads back (isolation), and what it reads back itself is the
+   per-log list the abstract operations describe *)
+Variable owner : Type.
+Variable owner_eqb : owner -> owner -> bool.
+Hypothesis owner_eqb_spec : forall a b, owner_eqb a b = true <-> a = b.
+Notation sel := (tb_select hash tm dat owner owner_eqb).
+
+Theorem C06_db_insert_refines t o rs : sel (tb_insert hash tm dat owner t o rs) o = sel t o ++ rs.
+Proof. exact (select_insert_same hash tm dat owner owner_eqb owner_eqb_spec t o rs). Qed.
+Theorem C06_db_rewind_refines t o n :
+  sel (tb_delete_last hash tm dat owner owner_eqb t o n) o = firstn (length (sel t o) - n) (sel t o).
+Proof. exact (select_delete_last_same hash tm dat owner owner_eqb t o n). Qed.
+Theorem C06_db_clear_refines t o : sel (tb_delete_all hash tm dat owner owner_eqb t o) o = [].
+Proof. exact (select_delete_all_same hash tm dat owner owner_eqb t o). Qed.
+Theorem C06_isolation_insert t o o' rs : o <> o' -> sel (tb_insert hash tm dat owner t o rs) o' = sel t o'.
+Proof. exact (select_insert_other hash tm dat owner owner_eqb owner_eqb_spec t o o' rs). Qed.
+Theorem C06_isolation_rewind t o o' n : o <> o' ->
+  sel (tb_delete_last hash tm dat owner owner_eqb t o n) o' = sel t o'.
+Proof. exact (select_delete_last_other hash tm dat owner owner_eqb owner_eqb_spec t o o' n). Qed.
+Theorem C06_isolation_clear t o o' : o <> o' ->
+  sel (tb_delete_all hash tm dat owner owner_eqb t o) o' = sel t o'.
+Proof. exact (select_delete_all_other hash tm dat owner owner_eqb owner_eqb_spec t o o' ). Qed.
+End C06.
+
+(* non-vacuity: a concrete rewind *)
+Example C06_nonvacuous_rewind :
+  log_rewind nat Nat.eqb nat nat
+    (mkElog [mkErec 1 10 0; mkErec 2 20 0; mkErec 3 10 0; mkErec 4 30 0] [10; 20; 10; 30]) 10
+  = RwOk (mkElog [mkErec 1 10 0; mkErec 2 20 0; mkErec 3 10 0] [10; 20; 10]) [mkErec 4 30 0].
 Proof. reflexivity. Qed.
-Print Assumptions C06_reopen_idem.
+
+Print Assumptions C06_reload_tree.
+Print Assumptions C06_inv_empty.
+Print Assumptions C06_inv_apply.
+Print Assumptions C06_inv_reopen.
+Print Assumptions C06_inv_patch_checked.
+Print Assumptions C06_replace_all.
+Print Assumptions C06_append_order.
+Print Assumptions C06_rewind.
+Print Assumptions C06_commit_is_hash.
+Print Assumptions C06_commit_is_hash_rewind.
+Print Assumptions C06_db_insert_refines.
+Print Assumptions C06_db_rewind_refines.
+Print Assumptions C06_db_clear_refines.
+Print Assumptions C06_isolation_insert.
+Print Assumptions C06_isolation_rewind.
+Print Assumptions C06_isolation_clear.
